@@ -487,6 +487,9 @@ func ideal(t tdesc, in gv) (int, gv) {
 		return verdict(inRange(z), intGV("int64", z))
 	case "uint":
 		if z == nil {
+			if r := in.rat(); r != nil && (in.K == "float" || in.K == "dec") && r.Sign() >= 0 {
+				return mayEither, gv{K: "opq"} // non-negative fraction: rounding to the variable's type is a conversion
+			}
 			return mustReject, none
 		}
 		return verdict(inRange(z), intGV("uint64", z))
@@ -582,6 +585,7 @@ type opT struct {
 	S   int    `json:"s"`
 	X   string `json:"x,omitempty"`
 	Lit string `json:"lit,omitempty"` // SQL text of the assigned expression
+	Form int   `json:"form,omitempty"` // spelling of the scope: 0 SET GLOBAL x / SET SESSION x, 1 SET @@GLOBAL.x / @@SESSION.x, 2 @@global.x / @@x, 3 SET x / SET LOCAL x
 }
 
 type caseT struct {
@@ -591,6 +595,7 @@ type caseT struct {
 	Ops  []opT  `json:"ops,omitempty"`
 	Vars []string `json:"vars,omitempty"` // variables read after every step
 	Out  string `json:"out,omitempty"`
+	NameSeed uint64 `json:"name_seed,omitempty"` // when non-zero the reads spell variable names in random letter case
 }
 
 var reg []vdesc
@@ -719,6 +724,16 @@ func runHist(c *lib.Ctx, cs caseT) {
 		return fromGo(r.Rows[0][0]), true, true
 	}
 
+	var nameRNG *lib.RNG
+	if cs.NameSeed != 0 {
+		nameRNG = lib.NewRNG(cs.NameSeed)
+	}
+	spell := func(x string) string {
+		if nameRNG == nil || nameRNG.Chance(1, 3) {
+			return x
+		}
+		return mixCase(nameRNG, x)
+	}
 	for i, o := range cs.Ops {
 		var opTerm string
 		accepted := true
@@ -746,10 +761,10 @@ func runHist(c *lib.Ctx, cs caseT) {
 			var q string
 			switch o.Op {
 			case "global":
-				q = "SET GLOBAL " + o.X + " = " + o.Lit
+				q = []string{"SET GLOBAL ", "SET @@GLOBAL.", "SET @@global.", "SET GLOBAL "}[o.Form%4] + o.X + " = " + o.Lit
 				opTerm = fmt.Sprintf("SetGlobal %s %s %s", coqNat(o.S), coqString(o.X), val.coq())
 			case "session":
-				q = "SET SESSION " + o.X + " = " + o.Lit
+				q = []string{"SET SESSION ", "SET @@SESSION.", "SET @@", "SET "}[o.Form%4] + o.X + " = " + o.Lit
 				opTerm = fmt.Sprintf("SetSession %s %s %s", coqNat(o.S), coqString(o.X), val.coq())
 			default:
 				q = "SET @" + o.X + " = " + o.Lit
@@ -829,19 +844,20 @@ func runHist(c *lib.Ctx, cs caseT) {
 					}
 				}
 				// @@global.x
-				if g, ok, usable := query(s, "SELECT @@global."+x); usable {
+				xg, xb, xs := spell(x), spell(x), spell(x)
+				if g, ok, usable := query(s, "SELECT @@"+lib.Pick(lib.NewRNG(uint64(i*131+si)+cs.NameSeed), []string{"global", "GLOBAL", "Global"})+"."+xg); usable {
 					if ok {
-						reads = append(reads, fmt.Sprintf("(RdGlobal %s %s, OVal %s)", coqNat(si), coqString(x), g.coq()))
+						reads = append(reads, fmt.Sprintf("(RdGlobal %s %s, OVal %s)", coqNat(si), coqString(xg), g.coq()))
 						check("@@global.", refGlobal[x], g)
 					} else {
-						reads = append(reads, fmt.Sprintf("(RdGlobal %s %s, OErr)", coqNat(si), coqString(x)))
+						reads = append(reads, fmt.Sprintf("(RdGlobal %s %s, OErr)", coqNat(si), coqString(xg)))
 						addFail("read/@@global./error", fmt.Sprintf("after %s: SELECT @@global.%s fails", desc(i), x))
 					}
 				}
 				// @@x: the session value, or for a GLOBAL-only variable the global value
-				if g, ok, usable := query(s, "SELECT @@"+x); usable {
+				if g, ok, usable := query(s, "SELECT @@"+xb); usable {
 					if ok {
-						reads = append(reads, fmt.Sprintf("(RdBare %s %s, OVal %s)", coqNat(si), coqString(x), g.coq()))
+						reads = append(reads, fmt.Sprintf("(RdBare %s %s, OVal %s)", coqNat(si), coqString(xb), g.coq()))
 						if v.Scope == "ScGlobal" {
 							slot := refGlobal[x]
 							if !slot.unknown && slot.set && checkStored(v.T, slot.v, g) != "" {
@@ -854,20 +870,20 @@ func runHist(c *lib.Ctx, cs caseT) {
 							check("@@", refSess[si][x], g)
 						}
 					} else {
-						reads = append(reads, fmt.Sprintf("(RdBare %s %s, OErr)", coqNat(si), coqString(x)))
+						reads = append(reads, fmt.Sprintf("(RdBare %s %s, OErr)", coqNat(si), coqString(xb)))
 						addFail("read/@@/error", fmt.Sprintf("after %s: SELECT @@%s fails", desc(i), x))
 					}
 				}
 				// @@session.x (an error is legitimate for a GLOBAL-only variable)
 				if (i+si)%3 == 0 {
-					if g, ok, usable := query(s, "SELECT @@session."+x); usable {
+					if g, ok, usable := query(s, "SELECT @@session."+xs); usable {
 						if ok {
-							reads = append(reads, fmt.Sprintf("(RdSession %s %s, OVal %s)", coqNat(si), coqString(x), g.coq()))
+							reads = append(reads, fmt.Sprintf("(RdSession %s %s, OVal %s)", coqNat(si), coqString(xs), g.coq()))
 							if v.Scope != "ScGlobal" {
 								check("@@session.", refSess[si][x], g)
 							}
 						} else {
-							reads = append(reads, fmt.Sprintf("(RdSession %s %s, OErr)", coqNat(si), coqString(x)))
+							reads = append(reads, fmt.Sprintf("(RdSession %s %s, OErr)", coqNat(si), coqString(xs)))
 							if v.Scope != "ScGlobal" {
 								addFail("read/@@session./error", fmt.Sprintf("after %s: SELECT @@session.%s fails", desc(i), x))
 							}
@@ -929,14 +945,13 @@ func runReg(c *lib.Ctx) {
 		cs := caseT{Kind: "reg", Var: v.Key}
 		id := c.Case("(CReg "+v.coq()+")", cs, "reg|"+v.Key)
 		c.Count("registry:" + v.T.Kind + ":" + v.Scope)
-		// the default must itself be a valid value of the variable
+		// the property makes no demand on defaults; count the ones outside their own range (Coq: C44_default_outside_range_fact)
+		_ = id
 		if v.T.Kind == "set" || v.T.Kind == "other" || v.ValueFn {
 			continue
 		}
-		c.PredChecked()
-		d := fromGo(v.Default)
-		if verdict, _ := ideal(v.T, d); verdict == mustReject {
-			c.PredFail(id, "registry/default-invalid/"+v.Key, fmt.Sprintf("default %s of %s is not a valid value of %s", d, v.Key, v.T.coq()), cs)
+		if verdict, _ := ideal(v.T, fromGo(v.Default)); verdict == mustReject {
+			c.Count("registry:default-outside-range:" + v.Key)
 		}
 	}
 }
@@ -1071,6 +1086,36 @@ func sqlLit(r *lib.RNG, g gv) string {
 
 var modelledVars []*vdesc
 
+// genLit: the SQL text assigned in a history step; besides the value families of genValue, fractional numerics around
+// valid values written as decimals, floats and divisions (7/2 evaluates to the decimal 3.5000).
+func genLit(r *lib.RNG, t tdesc) string {
+	if t.Lo != nil && r.Chance(1, 4) {
+		ints := candInts(r, t)
+		z := lib.Pick(r, ints)
+		for z.BitLen() > 50 {
+			z = lib.Pick(r, ints)
+		}
+		switch r.Intn(4) {
+		case 0:
+			if t.Kind == "double" { // only fractions a float64 holds exactly (the model takes decimals as exact)
+				return z.String() + lib.Pick(r, []string{".5", ".25", ".75", ".50"})
+			}
+			return z.String() + lib.Pick(r, []string{".5", ".4", ".6", ".25", ".75", ".50"})
+		case 1:
+			odd := new(big.Int).Add(new(big.Int).Mul(z, big.NewInt(2)), big.NewInt(1))
+			if odd.Sign() < 0 {
+				return "(" + odd.String() + ")/2"
+			}
+			return odd.String() + "/2"
+		case 2:
+			return z.String() + lib.Pick(r, []string{".5e0", ".25e0", ".75e0"})
+		default:
+			return z.String() + lib.Pick(r, []string{".0", ".00", "e0"})
+		}
+	}
+	return sqlLit(r, genValue(r, t, true))
+}
+
 func genConv(r *lib.RNG) caseT {
 	v := lib.Pick(r, modelledVars)
 	g := genValue(r, v.T, false)
@@ -1104,24 +1149,29 @@ func genHist(r *lib.RNG) caseT {
 		s := r.Intn(ns)
 		v := lib.Pick(r, vs)
 		name := v.Key
-		if r.Chance(1, 5) {
+		switch r.Intn(4) {
+		case 0:
 			name = mixCase(r, name)
+		case 1:
+			name = strings.ToUpper(name)
 		}
+		form := r.Intn(4)
 		switch k := r.Intn(10); {
 		case k < 2 && ns < 4:
 			cs.Ops = append(cs.Ops, opT{Op: "new"})
 			ns++
 		case k < 5:
-			cs.Ops = append(cs.Ops, opT{Op: "global", S: s, X: name, Lit: sqlLit(r, genValue(r, v.T, true))})
+			cs.Ops = append(cs.Ops, opT{Op: "global", S: s, X: name, Lit: genLit(r, v.T), Form: form})
 		case k < 9:
-			cs.Ops = append(cs.Ops, opT{Op: "session", S: s, X: name, Lit: sqlLit(r, genValue(r, v.T, true))})
+			cs.Ops = append(cs.Ops, opT{Op: "session", S: s, X: name, Lit: genLit(r, v.T), Form: form})
 		default:
 			cs.Ops = append(cs.Ops, opT{Op: "user", S: s, X: lib.Pick(r, users), Lit: sqlLit(r, genValue(r, lib.Pick(r, vs).T, true))})
 		}
 	}
-	if r.Chance(1, 2) {
+	if r.Chance(2, 3) {
 		cs.Ops = append(cs.Ops, opT{Op: "new"})
 	}
+	cs.NameSeed = r.Uint64() | 1
 	return cs
 }
 
@@ -1180,6 +1230,15 @@ func main() {
 			{Kind: "conv", Var: "group_concat_max_len", In: &gv{K: "dec", D: "-5.0"}},
 			{Kind: "conv", Var: "group_concat_max_len", In: &gv{K: "dec", D: "4.5"}},
 			{Kind: "conv", Var: "max_join_size", In: &gv{K: "float", F: "-1"}},
+			// fractional numerics on signed INT variables are rejected without effect
+			{Kind: "hist", Vars: []string{"auto_increment_increment", "max_connections"}, NameSeed: 7, Ops: []opT{{Op: "new"},
+				{Op: "session", S: 0, X: "auto_increment_increment", Lit: "2.5", Form: 2}, {Op: "session", S: 0, X: "auto_increment_increment", Lit: "7/2", Form: 2},
+				{Op: "global", S: 0, X: "max_connections", Lit: "100.4"}, {Op: "global", S: 0, X: "auto_increment_increment", Lit: "2.5e0"},
+				{Op: "session", S: 0, X: "auto_increment_increment", Lit: "3.0"}, {Op: "new"}}},
+			// upper / mixed case names with GLOBAL scope, read back as @@global.x and by a new session
+			{Kind: "hist", Vars: []string{"max_connections", "auto_increment_increment"}, NameSeed: 9, Ops: []opT{{Op: "new"},
+				{Op: "global", S: 0, X: "MAX_CONNECTIONS", Lit: "321"}, {Op: "global", S: 0, X: "Auto_Increment_Increment", Lit: "5", Form: 1}, {Op: "new"},
+				{Op: "global", S: 1, X: "AUTO_INCREMENT_INCREMENT", Lit: "6", Form: 2}, {Op: "new"}}},
 			// ordinary behaviour
 			{Kind: "hist", Vars: []string{"wait_timeout"}, Ops: []opT{{Op: "new"}, {Op: "new"}, {Op: "session", S: 0, X: "wait_timeout", Lit: "5"},
 				{Op: "global", S: 1, X: "WAIT_TIMEOUT", Lit: "77"}, {Op: "new"}, {Op: "session", S: 2, X: "wait_timeout", Lit: "0"}, {Op: "session", S: 2, X: "wait_timeout", Lit: "'abc'"},
